@@ -231,6 +231,30 @@ def run_case(ctx, d):
             attempt(ctx, pgpy, datapkt + b''.join(esk), secret, [data], 'esk-after-data', d)
             attempt(ctx, pgpy, b''.join(esk) + datapkt + datapkt, secret, [data], 'data-twice', d)
         elif m == 'wrong_secret':
+            # the same message *object*, after it has been decrypted successfully once: a wrong secret must still be refused
+            try:
+                em_used = pgpy.PGPMessage.from_blob(bytes(blob))
+                first = secret[1].decrypt(em_used) if secret[0] == 'key' else em_used.decrypt(secret[1])
+                wrongs = [('pass', w) for w in ('', 'nope', PW + 'x')] if secret[0] == 'pass' else [('key', encwork.recipient(o)[0]) for o in encwork.RECIPIENTS[:4] if o != d['rc']]
+                for wkind, w in wrongs:
+                    ctx.count('attempts')
+                    ctx.count('evaluations')
+                    ctx.count('wrong_secret_attempts')
+                    try:
+                        with time_limit(15):
+                            dec2 = w.decrypt(em_used) if wkind == 'key' else em_used.decrypt(w)
+                        ctx.fail('wrong-secret-accepted-on-message-object-already-decrypted-once', {'base': d, 'secret': wkind, 'returned': hx(bytes(dec2._message._contents))[:80] if dec2.type == 'literal' else repr(dec2)[:80]})
+                    except Stalled:
+                        ctx.outcome('stalled')
+                    except Exception as e:
+                        ctx.outcome('exception:' + type(e).__name__)
+                        ctx.count('rejected')
+                # and the right secret keeps working on that object
+                again = secret[1].decrypt(em_used) if secret[0] == 'key' else em_used.decrypt(secret[1])
+                if bytes(again._message._contents) != data:
+                    ctx.fail('second-decryption-of-same-object-differs', {'base': d})
+            except Exception as e:
+                ctx.fail('reuse-of-message-object-raised', {'base': d, 'err': '%s: %s' % (type(e).__name__, str(e)[:120])})
             if secret[0] == 'pass':
                 import unicodedata
                 for pw in ('', ' ', PW + ' ', PW.upper(), PW[:-1], PW + 'x', 'İntegrity pass', unicodedata.normalize('NFD', 'intégrity pass'), PW.encode('utf-8') + b'\x00', 'x' * 500):
